@@ -597,10 +597,10 @@ impl<'a> ExpressionVisitor<'a> for CodeBuilder<'a> {
         //                                                 ^ default_pos
         let last_body_ref = bodies.last().copied().unwrap_or(exit_ref);
         let mut case_body_start_refs = Vec::with_capacity(bodies.len());
-        case_body_start_refs.push(exit_ref.next());
         if let Some((_, heads)) = bodies.split_last() {
+            case_body_start_refs.push(exit_ref.next());
             case_body_start_refs.extend(heads.iter().map(|r| r.next()));
-        }
+        } // else: switch (x) {}
         let default_body_start_ref = default_pos.map(|p| case_body_start_refs.remove(p));
 
         // connect case branches
